@@ -152,9 +152,6 @@ Qed.
 (* ... and once a Stop call has returned, the cleaner does no work ever again: in every
    continuation of the schedule no tick is taken and no cleanup pass starts or finishes (the pass
    runs on the cleaner goroutine, which has exited for good). *)
-Definition cleaner_work (e : lev) : bool :=
-  match e with LTick | LCleanupDone => true | _ => false end.
-
 Lemma exited_absorbing s e s' :
   lstep s e = Some s' -> lcleaner s = PExited -> lcleaner s' = PExited /\ cleaner_work e = false.
 Proof.
